@@ -412,12 +412,16 @@ package decoder
 // ---------------------------------------------------------------- decoding touches only the destination (C07)
 // rsize(t): the size in bytes of runtime type t (uninterpreted; tied to the decoder structs by their invariants)
 //@ ufun rsize(Int) Int
+// initcap: capacity of the scratch slice obtained from the pool (a ghost constant of one Decode call)
+//@ spec hdrSame(p) := cast(p, sliceHeader).data == old(cast(p, sliceHeader).data) && cast(p, sliceHeader).len == old(cast(p, sliceHeader).len) && cast(p, sliceHeader).cap == old(cast(p, sliceHeader).cap)
+//@ spec initcap := u0()
+//@ ufun u0() Int
 
 //@ func typedmemmove(t, dst, src) ()
 //@   props C07
 //@   trusted go:linkname reflect.typedmemmove: copies rsize(t) bytes from src to dst
 //@   requires region(dst, rsize(t))
-//@   assigns M
+//@   assigns M[dst .. dst + rsize(t))
 
 //@ func unsafe_New(t) (p)
 //@   props C07
@@ -442,3 +446,60 @@ package decoder
 //@   loop 3: invariant 0 <= idx && idx <= cursor && old(cursor) <= cursor && cursor < len(buf) && buf[len(buf)-1] == 0 && buf == old(ctx.Buf) && ctx.Buf == old(ctx.Buf)
 //@   loop 3: invariant d.alen == old(d.alen) && d.size == old(d.size) && d.elemType == old(d.elemType)
 //@   loop 4: invariant 0 <= idx && d.alen == old(d.alen) && d.size == old(d.size) && d.elemType == old(d.elemType)
+
+//@ func newArray(t, n) (p)
+//@   props C07
+//@   trusted go:linkname reflect.unsafe_NewArray: a fresh zeroed array of n elements of type t
+//@   requires n >= 0
+//@   ensures p != nil && freshregion(p, n * rsize(t))
+//@   assigns nothing
+
+//@ func copySlice(elemType, dst, src) (n)
+//@   props C07
+//@   trusted go:linkname reflect.typedslicecopy: copies min(len) elements into dst's array
+//@   requires dst.len >= 0 && region(dst.data, dst.len * rsize(elemType))
+//@   assigns M[dst.data .. dst.data + dst.len * rsize(elemType))
+
+//@ func (*sliceDecoder).newSlice(d, src) (r)
+//@   props C07
+//@   trusted takes a scratch slice header from the decoder's pool (or allocates one) with room for the existing elements
+//@   requires d != nil && src != nil
+//@   ensures r != nil && r.cap >= 1 && 0 <= r.len && r.len <= r.cap && r.len == old(src.len) && r.cap < 70368744177664 && r.data != nil && region(r.data, r.cap * d.size)
+//@   ensures d.size == old(d.size) && d.elemType == old(d.elemType) && d.isElemPointerType == old(d.isElemPointerType) && d.valueDecoder == old(d.valueDecoder)
+//@   assigns M[r.data .. r.data + r.cap * d.size)
+
+//@ func (*sliceDecoder).releaseSlice(d, p) ()
+//@   props C07
+//@   trusted sync.Pool.Put
+//@   assigns nothing
+
+// The slice decoder writes element data only inside the scratch array it obtained (and regrows), each element
+// handed to the element decoder lies inside the current array, and the caller's slice header (24 bytes at p) is
+// the only part of the destination object it writes.
+//@ func (*sliceDecoder).Decode(d, ctx, cursor, depth, p) (c, err)
+//@   props C07 C06
+//@   requires d != nil && ctx != nil && bufOK(ctx.Buf, cursor)
+//@   requires d.size >= 1 && d.size < 1048576 && d.size == rsize(d.elemType) && (d.isElemPointerType ==> d.size == 8)
+// resource bound: the input is shorter than 4 GiB (keeps idx*size far from overflow)
+//@   requires len(ctx.Buf) < 4294967296
+//@   requires p != nil && region(p, 24)
+// the destination holds a well-formed slice header (Go's type invariant for a []T variable)
+//@   requires cast(p, sliceHeader).len >= 0 && cast(p, sliceHeader).len <= cast(p, sliceHeader).cap && cast(p, sliceHeader).cap < 70368744177664 && region(cast(p, sliceHeader).data, cast(p, sliceHeader).cap * d.size)
+// sliceType is the runtime type of a slice header (24 bytes)
+//@   callassume typedmemmove: rsize(sliceType) == 24
+// distinct allocations: the pooled scratch array is neither the input buffer nor the caller's slice header
+//@   postassume newSlice: (result.data + result.cap * d.size <= ptrOf(buf) || ptrOf(buf) + len(buf) <= result.data) && (result.data + result.cap * d.size <= p || p + 24 <= result.data)
+//@   callassert[C07] Decode: within(arg4, d.size, data, capacity * d.size)
+//@   postassume Decode: d.size == old(d.size) && d.elemType == old(d.elemType) && d.isElemPointerType == old(d.isElemPointerType) && d.valueDecoder == old(d.valueDecoder) && slice.cap == initcap && hdrSame(p)
+//@   postassume newSlice: result.cap == initcap && hdrSame(p)
+//@   ensures err == nil ==> cursor < c && c < len(old(ctx.Buf))
+//@   assigns all
+//@   loop 1: invariant old(cursor) <= cursor && cursor < len(buf) && buf[len(buf)-1] == 0 && buf == old(ctx.Buf)
+//@   loop 2: invariant 0 <= idx && idx <= cursor && old(cursor) <= cursor && cursor < len(buf)
+//@   loop 2: invariant buf[len(buf)-1] == 0
+//@   loop 2: invariant buf == old(ctx.Buf) && ctx.Buf == old(ctx.Buf)
+//@   loop 2: invariant 1 <= capacity && idx <= capacity && capacity <= slice.cap + 2 * idx && data != nil && slice != nil && slice.cap == initcap
+//@   loop 2: invariant region(data, capacity * d.size)
+//@   loop 2: invariant hdrSame(p)
+//@   loop 2: invariant data + capacity * d.size <= ptrOf(buf) || ptrOf(buf) + len(buf) <= data
+//@   loop 2: invariant d.size == old(d.size) && d.elemType == old(d.elemType) && d.isElemPointerType == old(d.isElemPointerType)
